@@ -873,7 +873,7 @@ func (wd *World) njStep(u string) (string, error) {
 	sort.Slice(ids, func(i, j int) bool { return ids[i] < ids[j] })
 	x := wd.R.Intn(100)
 	switch {
-	case x < 45 || len(ids) == 0:
+	case x < 38 || len(ids) == 0:
 		wd.nextNJ += uint64(1 + wd.R.Intn(5))
 		id := wd.nextNJ
 		body := fmt.Sprintf(`{"bodyid": %d, "type": "T%d", "n": %d, "tags": ["x","y"]}`, id, wd.R.Intn(4), wd.R.Intn(1000))
@@ -883,7 +883,7 @@ func (wd *World) njStep(u string) (string, error) {
 			wd.allNJ[id] = true
 		}
 		return "nj new", err
-	case x < 80:
+	case x < 66:
 		id := ids[wd.R.Intn(len(ids))]
 		var body string
 		switch wd.R.Intn(3) {
@@ -900,7 +900,7 @@ func (wd *World) njStep(u string) (string, error) {
 		}
 		_, err := wd.do("POST", fmt.Sprintf("%skey/%d%s", base, id, q), []byte(body), fmt.Sprintf("POST nj/key/%d%s %s%s", id, q, body, at))
 		return "nj update", err
-	case x < 88:
+	case x < 84:
 		// versioned metadata documents: validation schema (permissive for everything this workload writes) and the two
 		// client schemas; the open master head serves them from memory, every other version from the store
 		typ := []string{"json_schema", "schema", "schema_batch"}[wd.R.Intn(3)]
